@@ -8,7 +8,7 @@ import re
 from qv.facts import callee_name, const_int, is_place
 from qv import paths, effects
 from qv.bounds import Analyzer, lin, add, le
-from qv.rulelib import W, calls_in
+from qv.rulelib import W, calls_in, succeeded_before
 from rules import e5
 from rules import writer_common as wc
 
@@ -40,7 +40,8 @@ def reservation_premise(F, fn, b):
     fin = F.fn(W + 'finish_with_mac')
     stores = [(bb, i, st) for f_, bb, i, st in e5.field_stores(F, WTY, 'available', scope=lambda g: g.gpath == fin.gpath)]
     shapes = sorted(paths.show_operand(fin, st['rv']['op']) for bb, i, st in stores)
-    ok_shapes = len(shapes) == 2 and shapes[0] == 'Add(arg1.available,11_usize)' and shapes[1].startswith('Add(arg1.available,') and shapes[1].endswith('.reserved_len)')
+    # the second amount is the reserved_len of the very Tsig value taken out of self.tsig (unpacked by `if let` or `?`)
+    ok_shapes = len(shapes) == 2 and shapes[0] == 'Add(arg1.available,11_usize)' and re.match(r'^Add\(arg1\.available,(Option<T>::branch\()?Option::take\(arg1\.tsig\)\)?@(Some|Continue)\.0\.reserved_len\)$', shapes[1]) is not None
     g_ok = True
     for bb, i, st in stores:
         g = paths.dom_guards(fin, bb)
@@ -48,7 +49,7 @@ def reservation_premise(F, fn, b):
         if txt.endswith('11_usize)'):
             g_ok = g_ok and any(re.match(r'^discr\(arg1\.edns\) in \[1\]$', x) for x in g)
         else:
-            g_ok = g_ok and any(re.match(r'^discr\(Option::take\(arg1\.tsig\)\) in \[1\]$', x) for x in g)
+            g_ok = g_ok and succeeded_before(fin, bb, lambda t: callee_name(t) == 'std::option::Option::<T>::take' and paths.show_operand(fin, t['args'][0]) == 'arg1.tsig')
     se, stg = F.fn(W + 'set_edns'), F.fn(W + 'set_tsig')
     def reserve_ok(fn2, amount_rx, field):
         ss = [(bb, i, st) for f_, bb, i, st in e5.field_stores(F, WTY, 'available', scope=lambda g: g.gpath == fn2.gpath)]
